@@ -227,6 +227,8 @@ impl<B> Call<WithoutBody, B> {
         assert!(!self.analyzed);
 
         self.state.skip_method_body_check = true;
+        // Unless the user provides a content-length, the body is sent chunked.
+        self.state.writer = BodyWriter::new_chunked();
 
         Call {
             request: self.request,
